@@ -29,6 +29,21 @@ CLAIMED = {
         note=TB + "Table extractor harness/tables.py. The recursion of evaluate_deltas itself is validated per run, not translated."),
 }
 
+CLAIMED["C06"] = dict(
+    category="proof", design="DESIGN.md §4 C06",
+    technique="Lean 4 theorems about the executable model canonTensor/canonDelta (value, uniqueness, injectivity, zero-iff, idempotence) + differential correspondence model vs constructors",
+    text="canonTensor/canonDelta (Lean model of AntiSymmetricTensor/Amplitude/SymmetricTensor.__new__ and KroneckerDelta.eval) "
+         "are proved, for every kind, rank, bk and index tuple: value-preserving with the returned sign in every model with the "
+         "declared symmetry (canonTensor_sound), zero exactly for a repeated index in an antisymmetric group / disjoint delta "
+         "classes (canonTensor_none_iff, canonDelta_zero_iff), one canonical object per symmetry class with the parity sign "
+         "(canonTensor_perm_upper/lower, canonTensor_braket, canonTensor_swap_sign), injective up to the symmetry "
+         "(canonTensor_injective), idempotent. The model is tied to the code by a differential run on every check "
+         "(exhaustive over all permutations of fixed base tuples up to rank 3+3 for every kind and bk, plus random tuples incl. "
+         "spins, numbered names, repeated and unregistered duplicate indices, substitution), and assumption handling is "
+         "validated by the proved checker.",
+    note=TB + "The correspondence model<->constructors is differential testing (sampled beyond the exhaustive small scope). "
+         "Known finding recorded for idempotence with complex-conjugate t-amplitude names (known_findings.json).")
+
 PENDING = {
 }
 
